@@ -417,6 +417,10 @@ pub fn concretise(s: &Shader) -> String {
             if has("interpolate") && !vertex_input && matches!(&m.io, Some(Io::Loc { blend: false, .. })) && !is_int(&m.ty) && matches!(&m.ty, Ty::Scalar { .. } | Ty::Vec { .. }) {
                 attrs.push_str(["@interpolate(linear) ", "@interpolate(perspective) ", "@interpolate(perspective, centroid) ", "@interpolate(flat) ", "@interpolate(linear, center) "][mi % 5]);
             }
+            // sampling qualifiers are legal (and meaningless) on vertex inputs
+            if has("interpolate_vin") && vertex_input && matches!(&m.io, Some(Io::Loc { blend: false, .. })) && !is_int(&m.ty) && matches!(&m.ty, Ty::Scalar { .. } | Ty::Vec { .. }) {
+                attrs.push_str(["@interpolate(perspective, centroid) ", "@interpolate(linear) ", "@interpolate(linear, centroid) ", "@interpolate(perspective, center) "][mi % 4]);
+            }
             if let Some(a) = m.align {
                 let _ = write!(attrs, "@align({a}) ");
             }
